@@ -6,6 +6,8 @@ package checkgroup
 import (
 	"context"
 	"sync"
+
+	"github.com/ory/keto/internal/x/vhook"
 )
 
 // A concurrentCheckgroup is a collection of goroutines performing checks.
@@ -74,6 +76,7 @@ func (g *concurrentCheckgroup) startConsumer() {
 			)
 
 			defer g.cancel()
+			defer func() { vhook.Emit("cg.exit", g, g.result.Membership, g.result.Err != nil, totalChecks, finishedChecks) }()
 
 			// Closing the doneCh will signal that the result is ready.
 			defer close(g.doneCh)
@@ -87,10 +90,12 @@ func (g *concurrentCheckgroup) startConsumer() {
 
 			// Start with one reservation available.
 			g.reserveCheckCh <- struct{}{}
+			vhook.Emit("cg.start", g)
 
 			for {
 				select {
 				case check := <-g.addCheckCh:
+					vhook.Emit("cg.add", g, finalizing)
 					if finalizing {
 						continue
 					}
@@ -98,6 +103,7 @@ func (g *concurrentCheckgroup) startConsumer() {
 					go check(g.subcheckCtx, resultCh)
 
 				case <-g.finalizeCh:
+					vhook.Emit("cg.finalize", g)
 					if finalizing {
 						// we're already finalizing, so we don't want to
 						// accidentally set the result to ResultNotMember on a
@@ -111,6 +117,7 @@ func (g *concurrentCheckgroup) startConsumer() {
 					}
 
 				case result := <-resultCh:
+					vhook.Emit("cg.result", g, result.Membership, result.Err != nil)
 					finishedChecks++
 					if result.Err != nil || result.Membership == IsMember {
 						g.result = result
@@ -129,6 +136,7 @@ func (g *concurrentCheckgroup) startConsumer() {
 					}
 
 				case <-g.subcheckCtx.Done():
+					vhook.Emit("cg.ctxdone", g, g.ctx.Err() != nil)
 					g.result = Result{Err: g.ctx.Err()}
 					return
 				}
